@@ -26,6 +26,13 @@ Theorem C15_len :
        Forall (fun q => p_len (prod1d Rops) q = length (p_items (prod1d Rops) q)) ls).
 Proof. exact (conj (@leaves2d_len) leaves1d_len). Qed.
 
+(* IndexedParallelIterator::len of the two parallel iterators (the length bridge() hands to the consumer) is the sequential length *)
+Theorem C15_par_len : forall T (O : ops T),
+  (forall (s e : T) n, par1d_len n = length (seq1d O s e n)) /\
+  (forall x0 x1 nx y0 y1 ny, par2d_len (fst (fst (root2d nx ny))) (snd (fst (root2d nx ny))) (fst (snd (root2d nx ny))) (snd (snd (root2d nx ny)))
+                             = length (seq2d O x0 x1 nx y0 y1 ny)).
+Proof. exact (@par_len). Qed.
+
 (* 4. enumerate and indexed collect deliver point k at position k: the *_range functions return the sequential array *)
 Theorem C15_enumerate :
   (forall T (O : ops T) x0 x1 nx y0 y1 ny t, admissible 0 t (nx * ny) ->
@@ -76,6 +83,7 @@ Proof. cbn. repeat split; lia. Qed.
 Print Assumptions C15_2d_exact.
 Print Assumptions C15_1d_exact_real.
 Print Assumptions C15_len.
+Print Assumptions C15_par_len.
 Print Assumptions C15_enumerate.
 Print Assumptions C15_collect.
 Print Assumptions C15_reduce.
